@@ -301,6 +301,26 @@ func checkC13(p *Prog, r *Report) {
 					if k, ok := constInt(c.Common().Args[1]); ok && k == 0 {
 						term = c
 					}
+				default:
+					// a per-rule helper: called with rules[i], writes its parameter with WriteString
+					h := c.Common().StaticCallee()
+					if h == nil || h.Blocks == nil || !isModFunc(h) {
+						return
+					}
+					for k, a := range c.Common().Args {
+						ld, ok := a.(*ssa.UnOp)
+						if !ok || ld.Op != token.MUL || k >= len(h.Params) {
+							continue
+						}
+						if ia, ok := ld.X.(*ssa.IndexAddr); !ok || ia.X != rules {
+							continue
+						}
+						allCalls(h, func(hc ssa.CallInstruction) {
+							if calleeName(hc) == "(*"+pkgWire+".Conn).WriteString" && hc.Common().Args[1] == ssa.Value(h.Params[k]) {
+								ws = c
+							}
+						})
+					}
 				}
 			})
 			inLoop := false
